@@ -170,7 +170,7 @@ CHECKS.update({
 })
 
 # thorough tiers that were run end to end in this sandbox (the others are registered quick-only)
-THOROUGH_OK = {'C09', 'C11', 'C14', 'C15', 'C17', 'C18', 'C19', 'C20'}
+THOROUGH_OK = {'C01', 'C02', 'C07', 'C09', 'C10', 'C11', 'C12', 'C14', 'C15', 'C17', 'C18', 'C19', 'C20'}
 
 CHECKS.update({
     'C12': dict(
